@@ -1,6 +1,10 @@
 mod a64;
 mod ast;
 mod compile;
+mod enginek;
+mod enginex;
+mod fungen;
+mod funref;
 mod mach;
 mod minimize;
 mod monitor;
@@ -20,14 +24,97 @@ fn main() {
     std::process::exit(code);
 }
 
+fn replay_engine(path: &str) -> String {
+    std::fs::read_to_string(path)
+        .ok()
+        .and_then(|s| serde_json::from_str::<serde_json::Value>(&s).ok())
+        .and_then(|v| v.get("engine").and_then(|e| e.as_str()).map(|s| s.to_string()))
+        .unwrap_or_else(|| "M".into())
+}
+
 fn real_main() -> i32 {
     seam::silence_panics();
     let args: Vec<String> = std::env::args().collect();
     match args.get(1).map(|s| s.as_str()) {
+        Some("check") if args.len() >= 4 && args[2] == "C17" => enginek::check(&args[3]),
+        Some("check") if args.len() >= 4 && (args[2] == "C01" || args[2] == "C20") => enginex::check(&args[2], &args[3]),
+        Some("xworker") if args.len() >= 7 => {
+            let p = |i: usize| args[i].parse::<u64>().unwrap_or(0);
+            enginex::xworker(&args[2], &args[3], p(4), p(5), p(6))
+        }
+        Some("kworker") if args.len() >= 6 => {
+            let p = |i: usize| args[i].parse::<u64>().unwrap_or(0);
+            enginek::kworker(&args[2], p(3), p(4), p(5))
+        }
+        Some("fungen") => {
+            let seed: u64 = args.get(2).and_then(|s| s.parse().ok()).unwrap_or(1);
+            let mut rng = prng::Rng::keyed(seed, 0, "fungen");
+            let cfg = fungen::FunCfg::swarm(&mut rng, 60);
+            let p = fungen::generate(&mut rng, &cfg);
+            println!("// cfg {cfg:?}\n// args {:?} shadowing {}\n{}", p.args, p.has_shadowing, if args.get(3).is_some() { &p.unique } else { &p.shadowed });
+            0
+        }
         Some("check") if args.len() >= 4 => orch::check(&args[2], &args[3]),
         Some("worker") if args.len() >= 7 => {
             let p = |i: usize| args[i].parse::<u64>().unwrap_or(0);
             orch::worker(&args[2], &args[3], p(4), p(5), p(6))
+        }
+        Some("replay") if args.len() >= 3 && replay_engine(&args[2]) == "K" => match enginek::replay(&args[2]) {
+            Err(e) => {
+                eprintln!("replay: {e}");
+                2
+            }
+            Ok((rp, Some((stage, msg)))) => {
+                println!("VIOLATION property={} replay={}", rp.property, args[2]);
+                println!("  stage={stage} program={}", rp.name);
+                println!("  {msg}");
+                1
+            }
+            Ok((rp, None)) => {
+                println!("replay of {} does not violate {} on the current tree", args[2], rp.property);
+                0
+            }
+        },
+        Some("replay") if args.len() >= 3 && replay_engine(&args[2]) == "X" => {
+            let s = std::fs::read_to_string(&args[2]).unwrap_or_default();
+            let Ok(rp) = serde_json::from_str::<enginex::XReplay>(&s) else {
+                eprintln!("replay: cannot parse {}", args[2]);
+                return 2;
+            };
+            let rt = match enginex::CRuntime::build("replay") {
+                Ok(r) => r,
+                Err(e) => {
+                    eprintln!("replay: {e}");
+                    return 2;
+                }
+            };
+            let mut res = enginex::replay_x(&rt, &rp);
+            if rp.class == "Capture" {
+                // the capture class: the shadowed program fails and its renamed-apart twin passes
+                if let (Ok(Some(_)), Some(tw)) = (&res, &rp.unique_twin) {
+                    let mut t = rp.clone();
+                    t.source = tw.clone();
+                    if let Ok(Some(_)) = enginex::replay_x(&rt, &t) {
+                        res = Ok(Some(("Other".into(), "fails with unique names as well".into())));
+                    }
+                }
+            }
+            match res {
+                Err(e) => {
+                    eprintln!("replay: {e}");
+                    2
+                }
+                Ok(Some((class, msg))) => {
+                    println!("VIOLATION property={} replay={}", rp.property, args[2]);
+                    println!("  class={class}");
+                    println!("  {msg}");
+                    1
+                }
+                Ok(None) => {
+                    println!("replay of {} does not violate {} on the current tree", args[2], rp.property);
+                    0
+                }
+            }
         }
         Some("replay") if args.len() >= 3 => match orch::replay_file(&args[2]) {
             Err(e) => {
